@@ -19,16 +19,19 @@ func (d Duration) MarshalText() ([]byte, error) {
 		return nil, nil
 	}
 
+	// The magnitude is taken in unsigned arithmetic: -d is not representable
+	// for the minimum duration.
 	out := "PT"
+	abs := uint64(d)
 	if d < 0 {
-		d *= -1
+		abs = -abs
 		out = "-" + out
 	}
 
-	h := time.Duration(d) / time.Hour
-	m := time.Duration(d) % time.Hour / time.Minute
-	s := time.Duration(d) % time.Minute / time.Second
-	ns := time.Duration(d) % time.Second
+	h := abs / uint64(time.Hour)
+	m := abs % uint64(time.Hour) / uint64(time.Minute)
+	s := abs % uint64(time.Minute) / uint64(time.Second)
+	ns := abs % uint64(time.Second)
 	if h > 0 {
 		out += fmt.Sprintf("%dH", h)
 	}
